@@ -58,8 +58,8 @@ theorem afterIter_entered (v : VCfg P) (r : Run P O G B L Sc) (h : v.Ok r) (it :
 (the events aside), for every stop, `start_with_validation` flag and start iteration, from a state in training mode -/
 theorem vloop_eq_loop (v : VCfg P) (r : Run P O G B L Sc) (h : v.Ok r) (stop : Stop) (start : Nat) (swv : Bool)
     (fuel it : Nat) (s : St P O G Sc) (d : Dir) (ev : List Event) (hs : Entered v s) :
-    (vloop r v stop start swv fuel it s d ev).1 = (r.loop stop fuel it s d).1 ∧
-    (vloop r v stop start swv fuel it s d ev).2.1 = (r.loop stop fuel it s d).2 := by
+    (vloop r v stop none start swv fuel it s d ev).1 = (r.loop stop fuel it s d).1 ∧
+    (vloop r v stop none start swv fuel it s d ev).2.1 = (r.loop stop fuel it s d).2 := by
   induction fuel generalizing it s d ev with
   | zero => exact ⟨rfl, rfl⟩
   | succ fuel ih =>
@@ -77,6 +77,7 @@ theorem vloop_eq_loop (v : VCfg P) (r : Run P O G B L Sc) (h : v.Ok r) (stop : S
       by_cases hk : stop = .killDuring it
       · rw [if_pos hk, if_pos hk]; exact ⟨rfl, rfl⟩
       · rw [if_neg hk, if_neg hk]
+        simp only [Option.filter_none]
         have hs' := iterT_entered v r h r.table it (r.batch it) s hs
         generalize iterT r.table r.ops r.lrAt r.cfg s it (r.batch it) = s' at hs' ⊢
         have ha := afterIter_entered v r h it s' d ev' hs'
@@ -185,6 +186,92 @@ theorem vhistory_eq_history (v : VCfg P) (r : Run P O G B L Sc) (h : v.Ok r) (hr
       simp only [hdir]
       exact ih _ (r.loop_inv hr st _ _ d hd) ha2
 
+/-- a process that is said to die inside `write_to_logs` has executed the whole loop body -/
+def Die.wf (x : Die) (r : Run P O G B L Sc) : Prop := 2 ≤ x.phase → r.table.length ≤ x.nEv
+
+/-- **whatever ends a process — also a death at a statement boundary outside the kill path — the directory invariant is
+kept**: 'latest' stays absent or the uninterrupted run's state after its label -/
+theorem vloop_inv (v : VCfg P) (r : Run P O G B L Sc) (h : v.Ok r) (hr : r.Ok) (stop : Stop) (die : Option Die)
+    (hdie : ∀ x, die = some x → x.wf r) (start : Nat) (swv : Bool) (fuel it : Nat) (d : Dir) (ev : List Event)
+    (hd : r.Inv d) : r.Inv (vloop r v stop die start swv fuel it (r.U it) d ev).2.1 := by
+  induction fuel generalizing it d ev with
+  | zero => exact hd
+  | succ fuel ih =>
+    rw [vloop]
+    by_cases hge : it ≥ r.total
+    · rw [if_pos hge]; exact hd
+    · rw [if_neg hge]
+      have hent := U_entered v r h hr it
+      have hsv : (if (swv && it == start) = true then (v.validate (r.U it), ev ++ [Event.validate it]) else (r.U it, ev)).1
+          = r.U it := by
+        by_cases hc : (swv && it == start) = true
+        · rw [if_pos hc]; exact validate_entered v r h _ hent
+        · rw [if_neg hc]
+      simp only [hsv]
+      generalize (if (swv && it == start) = true then (v.validate (r.U it), ev ++ [Event.validate it]) else (r.U it, ev)).2 = ev'
+      by_cases hk : stop = .killDuring it
+      · rw [if_pos hk]
+        by_cases hg : killGuard (it : Int) = true
+        · simp only [hg, if_true]
+          have h5 : 5 ≤ it := by simp [killGuard] at hg; omega
+          have hl : r.killLabel (it : Int) = ((it - 1 : Nat) : Int) := by
+            rw [hr.label]; unfold Train.killLabel; omega
+          have hu : r.U it = r.U (it - 1 + 1) := by congr 1; omega
+          rw [hl, hu]
+          exact r.inv_save hr d (it - 1) (by omega)
+        · simp only [hg]; exact hd
+      · rw [if_neg hk]
+        cases hf : die.filter (fun x => x.it == it) with
+        | some x =>
+          simp only
+          have hx : die = some x := by
+            cases die with
+            | none => simp at hf
+            | some y =>
+              simp only [Option.filter] at hf
+              split at hf
+              · exact hf
+              · cases hf
+          by_cases hp : x.phase ≤ 1
+          · rw [if_pos hp]; exact hd
+          · rw [if_neg hp]
+            have hfull : List.take x.nEv r.table = r.table := List.take_of_length_le (hdie x hx (by omega))
+            simp only [hfull, r.U_succ hr it]
+            by_cases hck : ckptGuard it r.ckSteps r.total = true
+            · simp only [hck, if_true]; exact r.inv_save hr d it (by omega)
+            · simp only [hck]; exact hd
+        | none =>
+          simp only
+          rw [r.U_succ hr it]
+          have hent' := U_entered v r h hr (it + 1)
+          have ha := afterIter_entered v r h it (r.U (it + 1)) d ev' hent'
+          have hsave : r.Inv (r.save d it (snapshot (r.U (it + 1)))) := r.inv_save hr d it (by omega)
+          have hnext : r.Inv (afterIter r v it (r.U (it + 1)) d ev').2.1 := by
+            rw [ha.2]
+            by_cases hck : ckptGuard it r.ckSteps r.total = true
+            · rw [if_pos hck]; exact hsave
+            · rw [if_neg hck]; exact hd
+          have key := ih (it + 1) (afterIter r v it (r.U (it + 1)) d ev').2.1 (afterIter r v it (r.U (it + 1)) d ev').2.2 hnext
+          have hst : (afterIter r v it (r.U (it + 1)) d ev').1 = r.U (it + 1) := ha.1
+          cases stop with
+          | crashInSave j n m =>
+            simp only
+            by_cases hc : j = it ∧ ckptGuard it r.ckSteps r.total = true
+            · rw [if_pos hc]
+              have := crash_safe_of_wf r.decode r.saveTbl hr.save d it (r.encode (snapshot (r.U (it + 1)))) _ (hr.codec _) _
+                (crashAt_crashOf (opsOf r.saveTbl it (r.encode (snapshot (r.U (it + 1))))) n m)
+              rcases this with e | e
+              · show r.Inv _; unfold Run.Inv; rw [e]; exact hd
+              · exact Or.inr ⟨it, by omega, e⟩
+            · rw [if_neg hc, hst]; exact key
+          | finish => simp only [reduceCtorEq, if_false]; rw [hst]; exact key
+          | killDuring j => simp only [reduceCtorEq, if_false]; rw [hst]; exact key
+          | vanishAfter j =>
+            simp only
+            by_cases hv : Stop.vanishAfter j = Stop.vanishAfter it
+            · rw [if_pos hv]; exact hnext
+            · rw [if_neg hv, hst]; exact key
+
 /-! ### events -/
 
 theorem afterIter_events (r : Run P O G B L Sc) (v : VCfg P) (it : Nat) (s : St P O G Sc) (d : Dir) (ev : List Event) :
@@ -211,7 +298,7 @@ theorem schedule_add (ck vs total it n m : Nat) :
 bookkeeping of every iteration -/
 theorem vloop_finish_events (r : Run P O G B L Sc) (v : VCfg P) (start : Nat) (swv : Bool) (fuel it : Nat)
     (s : St P O G Sc) (d : Dir) (ev : List Event) (hle : start ≤ it) (hf : r.total - it ≤ fuel) :
-    (vloop r v .finish start swv fuel it s d ev).2.2 =
+    (vloop r v .finish none start swv fuel it s d ev).2.2 =
       ev ++ (if (swv && it == start) = true ∧ it < r.total then [Event.validate it] else [])
         ++ schedule r.ckSteps v.valSteps r.total it (r.total - it) := by
   induction fuel generalizing it s d ev with
@@ -227,7 +314,7 @@ theorem vloop_finish_events (r : Run P O G B L Sc) (v : VCfg P) (start : Nat) (s
       have : ¬ ((swv && it == start) = true ∧ it < r.total) := fun hh => by omega
       rw [h0, if_neg this]; simp [schedule]
     · rw [if_neg hge, if_neg (by simp)]
-      simp only
+      simp only [Option.filter_none]
       have hlt : it < r.total := by omega
       have hn : r.total - it = (r.total - (it + 1)) + 1 := by omega
       have hnext : ¬ ((swv && it + 1 == start) = true ∧ it + 1 < r.total) := by
